@@ -814,6 +814,9 @@ for _c in (0, 1, 2, 3):
       functions=['SET_OF_encode_uper', 'SET_OF__encode_sorted', 'SET_OF__encode_sorted_free', '_el_addbytes', '_el_buf_cmp', 'uper_encode', 'uper_put_length', 'asn_put_many_bits'], no_canary=True,
       defines=['VF_COUNT=%d' % _c, 'VF_CB_CAP=40', 'VF_PREFILL=1'], bound='native grid under ASan/UBSan/LSan with the assertions of h_setof_uper_enc.c (scratch space pre-filled so that every octet is flushed through the callback): lists of exactly %d 8-bit stub elements (all values for <= 2 elements, 24^3 grid for 3) x no / 0th..3rd output call failing' % _c, timeout=900)
 
+O(id='SEQUENCE_encode_oer.cbfail', props=['C07'], kind='bounded', entry='h_SEQUENCE_encode_oer', functions=['SEQUENCE_encode_oer', 'asn_put_few_bits', 'asn_put_aligned_flush', 'oer_open_type_put'],
+  unwind=22, cbmc=['--no-malloc-may-fail'], bound='as SEQUENCE_encode_oer, the output callback refuses one call (any of the first 9)', min_props=60, timeout=900, **dict(SQE, defines=['VF_CB_CAP=20', 'VF_OER_FAIL=1']))
+
 for _o in OBLIGATIONS:
     if _o.get('enforce') and _o.get('kind') in ('enforce', 'width') and _o.get('tier') == 'quick' and 'C19' not in _o['props']:
         _o['props'] = _o['props'] + ['C19']
